@@ -942,6 +942,14 @@ impl FailSafe {
         }
     }
 
+    /// Verification hook: a deferred fabric-scoped change is pending in the armed context.
+    pub fn verif_deferred(&self) -> bool {
+        match &self.state {
+            State::Idle => false,
+            State::Armed(ctx) => ctx.deferred,
+        }
+    }
+
     /// Verification hook: the CSR secret key currently staged in the fail-safe context.
     pub fn verif_secret_key(&self) -> CanonPkcSecretKeyRef<'_> {
         self.secret_key.reference()
